@@ -176,8 +176,20 @@ def jobs(tier, seed):
     if E.A is None:
         common.env_setup()
         E.worker_init()
-    ps = [(), (0x66,), (0x67,), (0x2E,)] if tier == 'quick' else [(), (0x66,), (0x67,), (0x66, 0x67), (0x2E,), (0x36,), (0x26,), (0x64,), (0x65,), (0xF2,), (0xF3,), (0xF0,)]
-    return [('dec', ej, tier) for ej in E.make_jobs(tier, seed, prefix_sets=ps, sib='reps', per_signature=(tier == 'quick'))]
+    if tier == 'quick':
+        # one row per signature; the full SIB representative set only for rows whose name is in SIB_ROWS (addressing forms are decoded
+        # by shared code), the thin ModRM slice elsewhere
+        out = []
+        for ej in E.make_jobs(tier, seed, prefix_sets=[(), (0x66,), (0x67,), (0x2E,)], sib='min', per_signature=True):
+            if ej[4] in SIB_ROWS and ej[0] in ((), (0x67,)):
+                ej = (ej[0], ej[1], ej[2], 'reps', ej[4])
+            out.append(('dec', ej, tier))
+        return out
+    ps = [(), (0x66,), (0x67,), (0x66, 0x67), (0x2E,), (0x36,), (0x26,), (0x64,), (0x65,), (0xF2,), (0xF3,), (0xF0,)]
+    return [('dec', ej, tier) for ej in E.make_jobs(tier, seed, prefix_sets=ps, sib='reps', per_signature=False)]
+
+
+SIB_ROWS = ('mov', 'lea', 'add', 'movzx', 'imul', 'fld', 'movq', 'push', 'cmpxchg', 'test', 'shl', 'inc')
 
 
 def run_job(job):
